@@ -98,6 +98,27 @@ fn check_multi(ctx: &mut Ctx, universe: usize, values: &[usize], via_iter: Optio
         });
         ctx.expect(|| format!("{}.one_iter[split]", name), got, &(all.clone(), true), || json!({"ms": case(), "call": format!("one_iter(): {} x next(), then next_back() to the end", split)}));
     }
+    // ... and the other way round: `split` items taken from the back first, then forward to the meeting point.
+    for split in 0..=all.len() {
+        let got = guard(|| {
+            let mut it = sv.one_iter();
+            let mut back = Vec::new();
+            for _ in 0..split {
+                back.extend(it.next_back());
+            }
+            back.reverse();
+            let mut front = Vec::new();
+            while let Some(x) = it.next() {
+                front.push(x);
+                if front.len() > all.len() {
+                    break; // ran past the meeting point
+                }
+            }
+            front.extend(back);
+            (front, it.next_back().is_none())
+        });
+        ctx.expect(|| format!("{}.one_iter[split from the back]", name), got, &(all.clone(), true), || json!({"ms": case(), "call": format!("one_iter(): {} x next_back(), then next() to the end", split)}));
+    }
     // Bit iterator lists the distinct positions, in both directions and at every split.
     if universe <= 5000 {
         let bools: Vec<bool> = (0..universe).map(|i| ms.get(i)).collect();
